@@ -1077,6 +1077,38 @@ func c13Check(ctx *vfCtx, c c13Case) {
 		return
 	}
 
+	// ---- the order of the Authorization headers is not signed (HTTPRequest emits them in map order,
+	// proxies may reorder them): the same request with its X-Matrix headers in the opposite order gets
+	// the same verdict
+	if auths := sreq.Header["Authorization"]; len(auths) >= 2 && kind == "none" {
+		rev := make([]string, len(auths))
+		for i, a := range auths {
+			rev[len(auths)-1-i] = a
+		}
+		sreq2, rerr2 := http.ReadRequest(bufio.NewReader(bytes.NewReader(w.bytes())))
+		if rerr2 == nil {
+			sreq2.Header["Authorization"] = rev
+			sreq2 = sreq2.WithContext(util.ContextWithLogger(context.Background(), c13Quiet))
+			var verifier2 gomatrixserverlib.JSONVerifier = &c13Verifier{keys: table}
+			if c.Verifier == "keyring" {
+				verifier2 = &gomatrixserverlib.KeyRing{KeyDatabase: &c13DB{keys: table}}
+			}
+			var got2 *FederationRequest
+			var resp2 util.JSONResponse
+			if vfCatch(ctx, "C13/reordered", func() {
+				got2, resp2 = VerifyHTTPRequest(sreq2, time.UnixMilli(c.NowMS), spec.ServerName(c.Local[0]), isLocal, verifier2)
+			}) {
+				return
+			}
+			ctx.Class("authorization-headers-reordered")
+			if (got == nil) != (got2 == nil) {
+				ctx.Fail("C13/verdict-depends-on-authorization-header-order", "with the %d Authorization headers as sent the request is answered %d, with the same headers in the opposite order %d (keys %s:%s, %s:%s)",
+					len(auths), resp.Code, resp2.Code, c.KeyID, c.KeyState, c.Key2ID, c.Key2State)
+				return
+			}
+		}
+	}
+
 	// ---- judgement ----
 	if kind != "none" || len(rs.hard) > 0 || len(rs.soft) > 0 || (c.HasBody && hasQuery) {
 		ctx.NonTrivial()
